@@ -671,6 +671,12 @@ func errLine(err error) string {
 func observe(l klevdb.Log, o ObsOpts) []string {
 	var out []string
 	add := func(format string, a ...any) { out = append(out, fmt.Sprintf(format, a...)) }
+	// Stat first: before any read has touched (and lazily rebuilt) a segment
+	if st, err := kStat(l); err != nil {
+		add("Stat(first) => %s", errLine(err))
+	} else {
+		add("Stat(first) => segs=%d msgs=%d", st.Segments, st.Messages)
+	}
 	nx, err := kNext(l)
 	add("NextOffset => %d %s", nx, errLine(err))
 	msgs, end, f := scanLog(l, 7, int(o.MaxOff)*2+64)
